@@ -1,5 +1,6 @@
 import Hv.Driver.Core
 import Hv.Vhdx
+import Hv.Layers
 namespace Hv.Driver
 open Hv
 
@@ -19,7 +20,31 @@ def vhdxChain (st : St) : List String → Except Err (Option Vhdx.Vhdx)
           pure (some v)
       else pure (some probe)) none
 
+/-- the same chain as a list, topmost image first (a file without `has_parent` starts a new chain) -/
+def vhdxChainList (st : St) (ids : List String) : Except Err (List Vhdx.Vhdx) :=
+  ids.foldlM (fun (acc : List Vhdx.Vhdx) id => do
+    let some fh := st.file? id | throw .other
+    let probe ← Vhdx.open fh none
+    if probe.hasParent then
+      match acc with
+      | [] => throw .other
+      | pv :: _ =>
+        let v ← Vhdx.open fh (some pv.reader)
+        pure (v :: acc)
+    else pure [probe]) []
+
 def vhdxCmd (st : St) : List String → String
+  | "vhdx.chaincheck" :: align :: nids :: rest =>
+    match align.toNat?, nids.toNat? with
+    | some a, some k =>
+      match vhdxChainList st (rest.take k) with
+      | .ok (v :: vs) =>
+        let wf := Vhdx.chainWfb (v :: vs)
+        s!"ok wf={if wf then 1 else 0} depth={vs.length + 1} " ++
+          checkStreamSpec v.read none 0 (Layers.overlay (Vhdx.chainLayers (v :: vs))) v.size a (rest.drop k)
+      | .ok [] => "bad-args"
+      | .error e => s!"err {e}"
+    | _, _ => "bad-args"
   | "vhdx.open" :: ids =>
     match vhdxChain st ids with
     | .ok (some v) => s!"ok size={v.size} bs={v.blockSize} ss={v.sectorSize} ratio={v.chunkRatio} n={v.entryCount} parent={if v.hasParent then 1 else 0} wf={if v.wfb then 1 else 0}"
